@@ -590,6 +590,7 @@ def explore(
     max_cex: int = 8,
     reset: Optional[Callable[[], None]] = None,
     check_keys: bool = True,
+    cex_grace_paths: int = 400,
 ) -> Dict[str, Any]:
     """Explore all paths of fn.  fn(ctx) returns a verdict: a bool/SymBool or a dict kind -> bool/SymBool.
 
@@ -606,6 +607,7 @@ def explore(
     notes_total: Dict[str, int] = {}
     prefix: List[Tuple[bool, bool, str]] = []
     status = "holds"
+    first_cex_at = None
     while True:
         if reset:
             reset()
@@ -670,6 +672,12 @@ def explore(
         d, _, key = tr.pop()
         prefix = tr + [(not d, True, key)]
         if len(cex) >= max_cex:
+            status = "cex-limit"
+            break
+        if cex and first_cex_at is None:
+            first_cex_at = st["paths"]
+        if first_cex_at is not None and st["paths"] - first_cex_at >= cex_grace_paths:
+            # a violation is established; a bounded number of further paths was explored to see other kinds of violation
             status = "cex-limit"
             break
         if st["paths"] >= max_paths or time.time() - t0 > timeout:
